@@ -1042,10 +1042,15 @@ class CParser:
 
     # BNF: atomic_specifier : _ATOMIC '(' type_name ')'
     def _parse_atomic_specifier(self) -> c_ast.Node:
-        self._expect("_ATOMIC")
+        tok = self._expect("_ATOMIC")
         self._expect("LPAREN")
         typ = self._parse_type_name()
         self._expect("RPAREN")
+        if isinstance(typ.type, (c_ast.ArrayDecl, c_ast.FuncDecl)):
+            self._parse_error(
+                "_Atomic(type-name) cannot name an array or function type",
+                self._tok_coord(tok),
+            )
         typ.quals.append("_Atomic")
         return typ
 
